@@ -342,7 +342,8 @@ def i_ASR(i, fmap):
     if shift._is_cst:
         result, cout = ASR_C(fmap(op1), shift.value)
     else:
-        result, cout = fmap(op1 >> op2), top(1)
+        # `//` is the arithmetic shift right (`>>` is the logical one)
+        result, cout = fmap(op1 // op2), top(1)
     fmap[dest] = stst(cond, result, fmap(dest))
     if dest == pc:
         fmap[pc_] = fmap(pc)
